@@ -7,7 +7,7 @@ if ! git diff --quiet; then echo "/repo has uncommitted changes"; exit 2; fi
 git apply "$patch" || { echo "patch does not apply"; exit 2; }
 cd /verif
 cp evidence/$id.json /tmp/evidence-$id.bak 2>/dev/null
-bin/vcheck $id --tier $tier > /tmp/seedrun-$id.out 2> /tmp/seedrun-$id.err
+bin/vcheck $id --tier $tier ${VCHECK_ARGS:-} > /tmp/seedrun-$id.out 2> /tmp/seedrun-$id.err
 rc=$?
 cp /tmp/evidence-$id.bak evidence/$id.json 2>/dev/null
 git -C /repo checkout -- .
